@@ -448,3 +448,34 @@ def inline_single_return(ctx, fn, call):
     for st in pre:
         m[st.targets[0].id] = _SubstNames(dict(m)).visit(copy.deepcopy(st.value))
     return ast.fix_missing_locations(_SubstNames(m).visit(copy.deepcopy(expr)))
+
+
+def worklist_loops(fn):
+    """`while work:` loops of fn that keep their own stack / queue of things still to visit: the test reads a local list
+    (`work`, `len(work)`, `work != []`) that the body pops from, appends to, or reads the last element of.  A walk written
+    that way visits a tree in an order, and with components, that the tuple-insensitive analyses here do not separate."""
+    out = []
+    for n in own_nodes(fn.node):
+        if not isinstance(n, ast.While):
+            continue
+        names = {x.id for x in ast.walk(n.test) if isinstance(x, ast.Name)}
+        hit = None
+        for st in n.body + n.orelse:
+            for x in ast.walk(st):
+                if isinstance(x, ast.Call) and isinstance(x.func, ast.Attribute) and isinstance(x.func.value, ast.Name) and x.func.value.id in names \
+                        and x.func.attr in ("pop", "append", "popleft", "extend", "appendleft"):
+                    hit = x.func.value.id
+                elif isinstance(x, ast.Subscript) and isinstance(x.value, ast.Name) and x.value.id in names and isinstance(x.slice, ast.UnaryOp):
+                    hit = x.value.id
+        if hit is not None:
+            out.append((n, hit))
+    return out
+
+
+def in_worklist_loop(ctx, fn, node):
+    """The name of the work list when node lies inside a worklist loop of fn (see worklist_loops), else None."""
+    loops = worklist_loops(fn)
+    if not loops:
+        return None
+    inside = {id(x): w for l, w in loops for x in ast.walk(l)}
+    return inside.get(id(node))
